@@ -400,13 +400,16 @@ public:
   }
 
   /**
-   * @brief Tells if this interval is empty
+   * @brief Tells if this interval is empty, that is, if it contains no (finite) number.
+   *
+   * An interval reduced to one point is not empty only if that point is
+   * included on both sides and is a finite number.
    */
   bool isEmpty() const override
   {
     return (lowerBound_ > upperBound_) ||
            ((lowerBound_ == upperBound_) &&
-           !(inclUpperBound_ && inclLowerBound_));
+           !(inclUpperBound_ && inclLowerBound_ && finiteLowerBound() && finiteUpperBound()));
   }
 };
 } // end of namespace bpp.
